@@ -49,6 +49,21 @@ def main():
             chk.proof_broken.append({'facts_extractor': 'unexpected %s: %s' % (type(err).__name__, str(err)[:200]),
                                      'traceback': traceback.format_exc()[-1500:]})
         if args.replay:
+            try:
+                import json
+                rep = json.load(open(args.replay))
+            except Exception:
+                rep = {}
+            if isinstance(rep, dict) and rep.get('no_failing_input_found'):
+                # no concrete input was found when this was written: what can be replayed is the obligation
+                # itself — rebuild the proofs from the current tree and say whether they check now
+                ok = chk.prove(getattr(mod, 'MODULE'))
+                print('replay: %s named proof_broken=%s correspondence_broken=%d; the proof obligations of %s %s on the current tree'
+                      % (args.replay, json.dumps(rep.get('proof_broken'))[:300], len(rep.get('correspondence_broken') or []),
+                         prop, 'all check' if ok else 'do NOT check: %s' % json.dumps(chk.proof_broken)[:400]))
+                if rep.get('correspondence_broken'):
+                    print('replay: the correspondence break is re-examined by running the check itself (./check %s)' % prop)
+                return 0 if ok else 1
             return mod.replay(chk, args.replay)
         chk.clean_replays()
         mod.run(chk)
